@@ -35,7 +35,7 @@ ATOMS = {
 
 
 def leaf_value(f, e, env):
-    s = canon(f, e, inline=False).replace(' ', '')
+    s = canon(f, e, inline=True).replace(' ', '')
     neg = False
     if '!=' in s and s.count('!=') == 1 and '==' not in s:
         s = s.replace('!=', '==')
@@ -79,6 +79,8 @@ def decide(f, env):
                 return eval_bool(f, kids(s)[0], env)
             elif s['k'] in ('NullStmt',):
                 continue
+            elif s['k'] == 'DeclStmt' and all(d['k'] == 'VarDecl' and single_def(f, d['id']) is not None for d in kids(s)):
+                continue      # single-definition locals are inlined into the atoms
             else:
                 raise AnalysisBroken('DECISION: statement %s in %s' % (s['k'], f.name))
         return None
